@@ -127,6 +127,20 @@ Theorem C12_exception_never_decodes :
   u_msg u = m0 /\ u_err u <> UNil /\ u_method u = name /\ u_seq u = seq.
 Proof. exact unmarshal_exception_never_decodes. Qed.
 
+(* UnmarshalFastMsg and ApplicationException.FastRead never panic on any bytes (for a Skip and a
+   payload FastRead that never panic and never over-report); the loop fuel is never exhausted *)
+Theorem C12_unmarshal_no_panic :
+  forall (P : Type) (p_read : P -> bytes -> P * res N) skipf b (m0 : P),
+  skip_ok skipf -> (forall m s, safe (snd (p_read m s))) ->
+  safe (unmarshal_fast_msg P p_read skipf b m0).
+Proof. exact unmarshal_total. Qed.
+Theorem C12_appex_read_no_panic : forall skipf e b, skip_ok skipf ->
+  safe (snd (appex_read skipf e b)) /\ (forall n, snd (appex_read skipf e b) = Ok n -> n <= len b).
+Proof. intros skipf e b H. now apply appex_read_total. Qed.
+Theorem C12_appex_read_fuel : forall skipf e b, skip_ok skipf -> (forall s t, skipf s t <> Err e_fuel) ->
+  snd (appex_read skipf e b) <> Err e_fuel.
+Proof. exact appex_read_fuel_ok. Qed.
+
 (* ApplicationException's own three methods satisfy the payload contract, for any target *)
 Theorem C12_appex_contract : forall skipf e0 e rest s,
   appex_ok e ->
@@ -138,6 +152,12 @@ Proof.
 Qed.
 
 (* non-vacuity *)
+Example C12_nonvacuous_skip_ok : skip_ok skip_scalar /\ (forall s t, skip_scalar s t <> Err e_fuel).
+Proof.
+  split; [exact skip_scalar_ok|]. intros s t. unfold skip_scalar.
+  repeat match goal with |- context [if ?c then _ else _] => destruct c end; discriminate.
+Qed.
+
 Example C12_nonvacuous_rt :
   let name := [69; 99; 104; 111] in      (* "Echo" *)
   len name < two31 /\ in_signed 32 1 /\ name <> [] /\ (1 mod 65536)%Z <> thrift_EXCEPTION /\
